@@ -333,14 +333,29 @@ def _colliding(kind):
                     return ret
             return Twin
         S1, S2 = make(1), make(2)
+    elif kind == 'primary and auxiliary':
+        # not a collision: an auxiliary service may shadow the methods of a primary one, whichever is listed first
+        from spyne.auxproc.sync import SyncAuxProc
+
+        class S1(Service):
+            __aux__ = SyncAuxProc()
+
+            @rpc(_returns=Integer)
+            def run(ctx):
+                return 1
+
+        class S2(Service):
+            @rpc(_returns=Integer)
+            def run(ctx):
+                return 2
     else:
         raise ValueError(kind)
     return S1, S2
 
 
-@harness('C11', params=['same-name wrapped', 'operation_name', 'bare in_message_name', 'twin services bare', 'twin services wrapped'],
+@harness('C11', params=['same-name wrapped', 'operation_name', 'bare in_message_name', 'twin services bare', 'twin services wrapped', 'primary and auxiliary'],
          functions=['spyne.interface._base.Interface.process_method', 'spyne.application.Application.check_unique_method_keys'],
-         bounds={'universes': 'five concrete pairs of services whose methods answer to the same name, in both orders '
+         bounds={'universes': 'five concrete pairs of services whose methods answer to the same name and one primary/auxiliary pair, in both orders '
                               '(enumeration of programs, no symbolic input)'})
 def colliding_names_rejected(sx, kind):
     """two methods that would answer to the same name are rejected when the application is constructed - or, if the
@@ -352,7 +367,11 @@ def colliding_names_rejected(sx, kind):
         app = Application(services, TNS, in_protocol=JsonDocument(), out_protocol=JsonDocument(),
                           name='Coll_%s_%s' % (kind.replace(' ', '_'), order.replace(',', '')))
     except Exception:
-        return True
+        return kind != 'primary and auxiliary'       # that pair is legal in either order
+    if kind == 'primary and auxiliary':
+        descs = app.interface.service_method_map['{%s}run' % TNS]
+        if [d.service_class for d in descs] != [S2, S1]:
+            return False                             # the primary method answers, the auxiliary one follows it
     # accepted: then the name must not be ambiguous - at most one primary function may answer to each name
     who = lambda d: ('S1' if d.service_class is S1 else 'S2' if d.service_class is S2 else '?') + '.' + d.function.__name__
     names = {}
